@@ -1,20 +1,33 @@
 #!/usr/bin/env python3
-"""normalise meta.json of a seeded change: demo_place = file in the module root, demo_cmd = run only the demo"""
-import json, re, sys, os
+"""normalise meta.json of a seeded change: demo_place = file in the package directory, demo_cmd = run only the demo"""
+import json, re, sys, os, shlex
 for d in sys.argv[1:]:
     f = os.path.join(d, "meta.json")
     m = json.load(open(f))
-    cmd = m.get("demo_cmd", "")
-    mm = re.search(r"-run[ =]+'([^']+)'|-run[ =]+\"([^\"]+)\"|-run[ =]+(\S+)", cmd)
-    pat = next((g for g in (mm.groups() if mm else []) if g), "Test")
-    race = " -race" if "-race" in cmd else ""
-    pkg = "."
-    mp = re.search(r"\s(\./\S+|\.)\s*$", cmd.strip())
-    if mp:
-        pkg = mp.group(1)
-    m["orig_demo_place"], m["orig_demo_cmd"] = m.get("orig_demo_place", m.get("demo_place")), m.get("orig_demo_cmd", cmd)
+    cmd = m.get("orig_demo_cmd", m.get("demo_cmd", ""))
+    seg = next((s for s in re.split(r"&&|;", cmd) if "go test" in s), cmd)
+    try:
+        toks = shlex.split(seg)
+    except ValueError:
+        toks = seg.split()
+    pat, pkg, race = "Test", ".", ""
+    i = 0
+    while i < len(toks):
+        t = toks[i]
+        if t == "-run" and i + 1 < len(toks):
+            pat = toks[i + 1]
+            i += 2
+            continue
+        if t.startswith("-run="):
+            pat = t[5:]
+        elif t == "-race":
+            race = " -race"
+        elif t == "." or (t.startswith("./") and not t.endswith(".go")):
+            pkg = t.rstrip("/") or "."
+        i += 1
+    m["orig_demo_place"], m["orig_demo_cmd"] = m.get("orig_demo_place", m.get("demo_place")), cmd
     name = "seeded_%s_demo_test.go" % os.path.basename(d.rstrip("/")).replace("-", "_").lower()
-    m["demo_place"] = name if pkg == "." else os.path.join(pkg, name)
+    m["demo_place"] = name if pkg == "." else os.path.join(pkg[2:], name)
     m["demo_cmd"] = "go test%s -vet=off -count=1 -run '%s' %s" % (race, pat, pkg)
     json.dump(m, open(f, "w"), indent=1)
     print(d, "->", m["demo_place"], "|", m["demo_cmd"])
